@@ -199,7 +199,12 @@ pub fn run_case_best(c: &Case) -> Option<Ply> {
 
 /// positions: seeds, bench FENs, and positions reached by random play (kept with their move history)
 /// roots with exactly one legal move (in check and not), and roots without any (mated, stalemated)
-pub const FORCED: [(&str, &str); 6] = [
+pub const FORCED: [(&str, &str); 10] = [
+    // a knight mates a king walled in by its own immobile men: the mated side has no pseudo-legal move AT ALL (one ply below the root)
+    ("k7/8/8/8/6p1/3nr1P1/4P1PB/5BRK b - - 0 1", ""),
+    ("7k/8/8/8/1p6/1P1rn3/BP1P4/KRB5 b - - 0 1", ""),
+    ("5brk/4p1pb/3NR1p1/6P1/8/8/8/K7 w - - 0 1", ""),
+    ("krb5/bp1p4/1p1RN3/1P6/8/8/8/7K w - - 0 1", ""),
     ("7k/8/8/8/8/8/5PP1/r5K1 w - - 0 1", ""),
     ("rnbqkbnr/pppppppp/8/8/8/8/PPPPPPPP/RNBQKBNR w KQkq - 0 1", "e2e4 f7f5 d1h5"),
     ("7k/7p/7P/8/8/8/8/K7 b - - 0 1", ""),
@@ -493,7 +498,15 @@ pub fn search_stream(args: &[String]) {
                     run_case(&Case { fen: fen.to_string(), moves: vec![], depth: *d, nodes: None, stop: 0, cache: "fresh", tag: "tag=deep".to_string(), tc: NO_TC, vdiv: 0 });
                 }
             };
+            // … and one LARGE search (more than half a million entries) on a brand-new map — what a fresh process has — and again at
+            // the end on the cleared, grown map: the allocation must not matter either
+            let big = |_: ()| {
+                run_case(&Case { fen: "r3k2r/p1ppqpb1/bn2pnp1/3PN3/1p2P3/2N2Q1p/PPPBBPPP/R3K2R w KQkq - 0 1".to_string(), moves: vec![], depth: arg(args, "bigdepth", 8), nodes: None, stop: 0, cache: "fresh", tag: "tag=deep".to_string(), tc: NO_TC, vdiv: 0 });
+            };
             if shard == 0 {
+                *TRANSPOSITION_TABLE.write().unwrap() = Default::default();
+                big(());
+                *TRANSPOSITION_TABLE.write().unwrap() = Default::default();
                 frame(());
                 let entry = TRANSPOSITION_TABLE.read().unwrap().values().next().copied();
                 if let Some(entry) = entry {
@@ -519,6 +532,7 @@ pub fn search_stream(args: &[String]) {
                     tt.clear();
                 }
                 frame(());
+                big(());
             }
         }
         "matechain" => {
